@@ -121,6 +121,19 @@ func VerifC13Partitions() {
 	w := vNewWorld(zzverif.Param("keys", 2))
 	w.history()
 	w.setPartitions()
+	if nf := zzverif.Param("iterfaults", 0); nf > 0 {
+		// one transient engine fault at any of the first nf iterator steps of the read: the worker
+		// retries its partition, and the result must be what it is without the fault
+		at := zzverif.Choose("iterFaultAt", nf+1) - 1
+		w.s.NNext = 0
+		w.s.IterFault = func(n int) bool {
+			if n == at {
+				zzverif.Cover("iterator-fault")
+				return true
+			}
+			return false
+		}
+	}
 	rg := vRanges[0]
 	switch zzverif.Choose("read", 3) {
 	case 0:
@@ -131,6 +144,39 @@ func VerifC13Partitions() {
 	default:
 		r := w.readRev("R")
 		w.checkStream(rg[0], rg[1], r)
+	}
+	zzverif.Cover("done")
+}
+
+// VerifC13Retry: three keys (the middle one updated once), any single border, pieces in any order,
+// and one transient engine fault at any iterator step of the read: the worker retries its
+// partition, and the unlimited range read, the count and the streamed range are what they are
+// without the fault — every qualifying key exactly once.
+func VerifC13Retry() {
+	w := vNewWorld(3)
+	w.create("k0", vNames[0])
+	w.create("k1", vNames[1])
+	w.create("k2", vNames[2])
+	w.vWriteSeqOn(vNames[1], 1)
+	zzverif.WaitIdle()
+	w.setPartitions()
+	at := zzverif.Choose("iterFaultAt", zzverif.Param("iterfaults", 8)+1) - 1
+	w.s.NNext = 0
+	w.s.IterFault = func(n int) bool {
+		if n == at {
+			zzverif.Cover("iterator-fault")
+			return true
+		}
+		return false
+	}
+	rg := vRanges[0]
+	switch zzverif.Choose("read", 3) {
+	case 0:
+		w.checkList(rg[0], rg[1], 0, 0)
+	case 1:
+		w.checkCount(rg[0], rg[1])
+	default:
+		w.checkStream(rg[0], rg[1], 0)
 	}
 	zzverif.Cover("done")
 }
